@@ -197,6 +197,44 @@ def entity_map(out):
 
 
 @extractor
+def ble_value_formats(out):
+    """C14: the HAP-BLE characteristic signature route - per presentation-format code the `struct` format the library uses to
+    unpack a value / a step (`_unpack_value`), to pack a value (`_pack_value`) and to unpack the valid range (`min_max_value`)"""
+    t = parse("controller/ble/structs.py")
+
+    def chain(fname, call):
+        f = func(t, fname, cls="Characteristic")
+        rows = []
+        for st in f.body:
+            if not (isinstance(st, ast.If) and isinstance(st.test, ast.Compare) and len(st.test.ops) == 1 and isinstance(st.test.ops[0], ast.Eq)
+                    and ast.unparse(st.test.left) == "self.pf_format" and isinstance(st.test.comparators[0], ast.Constant)):
+                continue
+            code = st.test.comparators[0].value
+            calls = [c for c in ast.walk(st) if isinstance(c, ast.Call) and ast.unparse(c.func) == "struct." + call]
+            if st.orelse:
+                raise Shape(f"{fname}: else branch at format {code}")
+            if len(calls) > 1:
+                raise Shape(f"{fname}: several struct calls at format {code}")
+            if calls:
+                if not (isinstance(calls[0].args[0], ast.Constant) and isinstance(calls[0].args[0].value, str)):
+                    raise Shape(f"{fname}: struct format is not a literal at format {code}")
+                # what is done with the unpacked tuple: `[0]` (a scalar), bool(...) of it, or the tuple itself
+                how = "tuple"
+                for n in ast.walk(st):
+                    if isinstance(n, ast.Subscript) and n.value is calls[0]:
+                        how = "first"
+                if any(isinstance(n, ast.Call) and getattr(n.func, "id", "") == "bool" for n in ast.walk(st)):
+                    how = "bool"
+                rows.append((code, calls[0].args[0].value, how))
+            else:
+                rows.append((code, "", ast.unparse(st.body[-1])[:60]))
+        if not rows:
+            raise Shape(f"{fname}: no format rows")
+        return rows
+    out["BleMeta"] = {"unpack": chain("_unpack_value", "unpack"), "pack": chain("_pack_value", "pack"), "range": chain("min_max_value", "unpack")}
+
+
+@extractor
 def misc_numbers(out):
     """numeric literals and names at anchored AST shapes for C06 (CoAP resynchronisation window), C07 (framing header names),
     C14 (decimal context), C18 (state-number candidates), C19 (BLE advertisement layout)"""
@@ -932,6 +970,21 @@ def emit_srp(out, files):
           "/-- `SrpClient.__init__`: `self.A = ...` -/", f"def publicKey : E := {E(a['pub'])}",
           "end HapVerif.Gen.Srp"]
     files["Srp.lean"] = "\n".join(L) + "\n"
+
+
+@emitter
+def emit_blemeta(out, files):
+    d = out["BleMeta"]
+
+    def rows(rs):
+        return "[" + ", ".join(f"({c}, {lean_str(f)}, {lean_str(h)})" for c, f, h in rs) + "]"
+    L = ["/-! GENERATED by tools/translate.py from controller/ble/structs.py - do not edit. -/", "namespace HapVerif.Gen.BleMeta",
+         "/-- (presentation format code, struct format, what is done with the result) per row of the if-chain, in source order -/",
+         f"def unpackRows : List (Nat × String × String) := {rows(d['unpack'])}",
+         f"def packRows : List (Nat × String × String) := {rows(d['pack'])}",
+         f"def rangeRows : List (Nat × String × String) := {rows(d['range'])}",
+         "end HapVerif.Gen.BleMeta"]
+    files["BleMeta.lean"] = "\n".join(L) + "\n"
 
 
 @emitter
